@@ -38,7 +38,7 @@ def synth_alpha(shape: str, n: int = 41) -> pd.DataFrame:
     p = np.linspace(100.0, 10000.0, n)
     x = (p - p[0]) / (p[-1] - p[0])
     alpha = {"rising": 1 + 2 * x, "falling": 3 - 2 * x, "kinked": 1 + 2 * np.abs(x - 0.5), "constant": np.ones(n),
-             "steep": 0.05 + 10 * x**3}[shape]
+             "steep": 0.05 + 10 * x**3, "stepped": np.where(x < 0.45, 0.02, 1.0)}[shape]
     return pd.DataFrame({"pressure": p, "pseudopressure": p.copy(), "alpha": alpha, "density": p.copy()})
 
 
@@ -87,6 +87,16 @@ def make_grid(style: str, nt: int, tend: float, rng) -> np.ndarray:
     if style == "jumpy":  # increments going up and down by orders of magnitude
         d = 10.0 ** rng.uniform(-4, 0, nt - 1)
         return np.concatenate([[0.0], np.cumsum(d) * tend / d.sum()])
+    if style == "drift":  # every increment a few parts per million longer than the last
+        d = (tend / nt) * (1 + 4e-6) ** np.arange(nt - 1)
+        return np.concatenate([[0.0], np.cumsum(d)])
+    if style == "tiny":  # tiny increments that double
+        d = 1e-13 * 2.0 ** np.arange(nt - 1)
+        return np.concatenate([[0.0], np.cumsum(np.minimum(d, tend))])
+    if style == "intdays":  # integer day counts (int64 array)
+        return np.concatenate([[0], np.cumsum(rng.integers(1, 4, nt - 1))]).astype(np.int64)
+    if style == "f32":
+        return (np.linspace(0, math.sqrt(tend), nt) ** 2).astype(np.float32)
     if style == "huge":  # very large steps
         d = 10.0 ** rng.uniform(0, 8, nt - 1)
         return np.concatenate([[0.0], np.cumsum(d)])
@@ -126,18 +136,19 @@ def residual_rows(k: list[Fraction], b: list[Fraction], v: list[Fraction]) -> li
     return out
 
 
-def step_backward_error(obj, kind: str, m_i: float, t0: float, t1: float, prev: np.ndarray, new: np.ndarray,
+def step_backward_error(fp, kind: str, m_i: float, dt: float, prev: np.ndarray, new: np.ndarray,
                         skip_face_row: bool = True) -> float:
     """Componentwise backward error of the stored step: max_j |A(k) u' - b|_j / (|b_j| + (|A||u'|)_j), over the rows
     the property names (interior nodes and the outer node), with k from the *stored* previous level through the
-    object's public alpha_scaled and the run's mesh constant.  Exact rational arithmetic on the float values."""
+    supplied fluid's diffusivity lookup and the run's mesh constant.  Exact rational arithmetic on the float values."""
     nx = len(prev)
     h2 = Fraction(1, (nx - 1) ** 2) if kind == "ideal" else Fraction(1, nx**2)
-    r = (Fraction(float(t1)) - Fraction(float(t0))) / h2
+    r = Fraction(float(dt)) / h2   # the increment as the caller's array defines it (its own dtype's subtraction)
     bf = np.array(prev, dtype=float) if kind == "ideal" else np.minimum(prev, m_i)
-    with warnings.catch_warnings():
-        warnings.simplefilter("ignore")
-        a = np.asarray(obj.alpha_scaled(bf), dtype=float)
+    if kind == "ideal":
+        a = np.ones(nx)
+    else:  # scaled diffusivity of the *fluid the caller supplied* at the previous profile (never read from the object)
+        a = np.asarray(fp.alpha(bf), dtype=float) / float(fp.alpha(m_i))
     k = [r * Fraction(float(x)) for x in a]
     b = [Fraction(float(x)) for x in bf]
     v = [Fraction(float(x)) for x in new]
@@ -206,6 +217,16 @@ def run_config(cfg: dict, tid: int, max_levels: int = 400, want_residual: bool =
     pmin = float(np.asarray(tab["pressure"])[1])
     sched = make_schedule(cfg.get("sched", "none"), len(time), cfg["pf"], cfg["pi"], max(pmin, 0.05 * cfg["pf"]), rng) \
         if kind == "single" else None
+    if cfg.get("prelude"):
+        # the same object first runs another simulation with another fluid table and grid; then the caller assigns the
+        # fluid of this configuration (a public dataclass field) and simulates again
+        fp2 = rdrv.flow_properties(table(cfg["prelude"]), cfg["pi"])
+        obj.fluid = fp2
+        with warnings.catch_warnings():
+            warnings.simplefilter("ignore")
+            obj.simulate(np.linspace(0, 1.0, 7) ** 2)
+            obj.recovery_factor()
+        obj.fluid = fp
     with SolverFlags() as flags, warnings.catch_warnings():
         warnings.simplefilter("ignore")
         if sched is None:
@@ -243,8 +264,8 @@ def run_config(cfg: dict, tid: int, max_levels: int = 400, want_residual: bool =
     for i in levels:
         seq += 1
         resid = -1
-        if i > 0 and want_residual:
-            be = step_backward_error(obj, kind, m_i, time[i - 1], time[i], u[i - 1], u[i])
+        if i > 0 and want_residual and time.dtype != np.float32:   # float32 grids: the step is only float32-accurate
+            be = step_backward_error(fp, kind, m_i, time[i] - time[i - 1], u[i - 1], u[i])
             worst_resid = max(worst_resid, be)
             resid = quant.e15_of(be)
         relax = min(2 * 10**9, int(math.floor(1000.0 * rho_min * max(0.0, float(time[i] - time[0])))))
